@@ -1,5 +1,6 @@
 import Driver.Common
 import Logrange.Model.DateParser
+import Logrange.Model.DateLineParser
 import Logrange.Generated.C20
 /-! Model driver for C20 (timestamp text → instant). Requests (byte strings hex, `-` = empty):
 
@@ -11,6 +12,8 @@ import Logrange.Generated.C20
 * `tparse <layout> <value>`              — `time.Parse(layout, value)` (Local = UTC)
 * `tformat <layout> Y M D h m s ns wd`   — `time.Format` for the covered elements
 * `find <regexp> <text>`                 — unanchored leftmost-first search, the matched substring
+* `lp.reset` / `lp.line <nowY> <nowM> <nowD> <line>` — a fresh collector line parser (default list) / its next line:
+  `dated <idx> <civil>` | `carried <civil>` | `carried zero`, then ` | skip=<0|1> cnt=<n> maxskip=<n> cur=<i|->`
 
 Answers: `ok <fmtIndex> Y M D h m s ns <instOff> <dispOff>` (instant = `time.Date(Y..ns, UTC)` − instOff seconds, shown at
 dispOff), `err`, `unsupported <idx> <what>`; for lql also `rel <unit> <num> ELSE <answer>`, `const <k>`, `nano <n>`.
@@ -51,48 +54,73 @@ def nowOf (y m d : String) : Option Now :=
 
 def b2s (b : Bool) : String := if b then "1" else "0"
 
-def step (_ : Unit) (toks : List String) : Unit × String :=
+def lpcfg : LPCfg :=
+  { maxFail := Logrange.Generated.C20.lpMaxFailCnt, maxSkip0 := Logrange.Generated.C20.lpMaxSkipCnt,
+    maxSkipOnDetect := Logrange.Generated.C20.lpMaxSkipCntOnDetect, skipCap := Logrange.Generated.C20.lpSkipCap,
+    resetOnFast := Logrange.Generated.C20.lpResetsCountOnFastPath, resetOnDetect := Logrange.Generated.C20.lpResetsCountOnDetect,
+    lastOnFast := Logrange.Generated.C20.lpSetsLastDateOnFastPath, lastOnDetect := Logrange.Generated.C20.lpSetsLastDateOnDetect }
+
+def showLP (lp : LP) : String :=
+  s!" | skip={b2s lp.skipping} cnt={lp.cnt} maxskip={lp.maxSkip} cur={match lp.cur with | some i => toString i | none => "-"}"
+
+def showRec : LRec → String
+  | .dated i c => s!"dated {i} {showCivil c}"
+  | .carried (some c) => s!"carried {showCivil c}"
+  | .carried none => "carried zero"
+
+def stepU (toks : List String) : String :=
   match toks with
   | ["col", y, m, d, t] =>
     (match nowOf y m d with
-     | some now => ((), showP (parseFirst gadj colFmts now (unhex t)))
-     | none => ((), "bad-op"))
+     | some now => (showP (parseFirst gadj colFmts now (unhex t)))
+     | none => ("bad-op"))
   | ["lql", y, m, d, t] =>
     (match nowOf y m d with
-     | some now => ((), showL (parseLql gcfg lqlFmts now (unhex t)))
-     | none => ((), "bad-op"))
+     | some now => (showL (parseLql gcfg lqlFmts now (unhex t)))
+     | none => ("bad-op"))
   | ["lqlnl", y, m, d, t] =>
     (match nowOf y m d with
-     | some now => ((), showL (parseLql { gcfg with fmtLower := false } lqlFmts now (unhex t)))
-     | none => ((), "bad-op"))
+     | some now => (showL (parseLql { gcfg with fmtLower := false } lqlFmts now (unhex t)))
+     | none => ("bad-op"))
   | ["one", f, y, m, d, t] =>
     (match nowOf y m d with
-     | some now => ((), showP (parseFirst gadj [compile gterms (unhex f)] now (unhex t)))
-     | none => ((), "bad-op"))
+     | some now => (showP (parseFirst gadj [compile gterms (unhex f)] now (unhex t)))
+     | none => ("bad-op"))
   | ["fmt", f] =>
     let cf := compile gterms (unhex f)
-    ((), s!"layout={hex (dateMap gterms (unhex f))} rx={hex cf.rxText} loc={b2s cf.hasLocation} year={b2s cf.hasYear} nodate={b2s cf.noDate} rxok={b2s cf.rx.isSome} layok={b2s cf.layout.supported}")
+    (s!"layout={hex (dateMap gterms (unhex f))} rx={hex cf.rxText} loc={b2s cf.hasLocation} year={b2s cf.hasYear} nodate={b2s cf.noDate} rxok={b2s cf.rx.isSome} layok={b2s cf.layout.supported}")
   | ["tparse", l, v] =>
     (match timeParse (unhex l) (unhex v) with
-     | .ok c => ((), s!"ok 0 {showCivil c}")
-     | .err => ((), "err")
-     | .unsupported => ((), "unsupported 0 2"))
+     | .ok c => (s!"ok 0 {showCivil c}")
+     | .err => ("err")
+     | .unsupported => ("unsupported 0 2"))
   | ["tformat", l, y, mo, d, h, mi, s, ns, wd] =>
     (match y.toNat?, mo.toNat?, d.toNat?, h.toNat?, mi.toNat?, s.toNat?, ns.toNat?, wd.toNat? with
      | some y, some mo, some d, some h, some mi, some s, some ns, some wd =>
        (match formatLayout (Layout.ofBytes (unhex l)) ⟨y, mo, d, h, mi, s, ns, wd⟩ with
-        | some b => ((), s!"text {hex b}")
-        | none => ((), "none"))
-     | _, _, _, _, _, _, _, _ => ((), "bad-op"))
+        | some b => (s!"text {hex b}")
+        | none => ("none"))
+     | _, _, _, _, _, _, _, _ => ("bad-op"))
   | ["find", r, t] =>
     (match parseRegexp (unhex r) with
-     | none => ((), "unsupported 0 1")
+     | none => ("unsupported 0 1")
      | some rx =>
        match find rx (unhex t) with
-       | some m => ((), s!"m {hex m}")
-       | none => ((), "nomatch"))
-  | _ => ((), "bad-op")
+       | some m => (s!"m {hex m}")
+       | none => ("nomatch"))
+  | _ => ("bad-op")
+
+def step (lp : LP) (toks : List String) : LP × String :=
+  match toks with
+  | ["lp.reset"] => (LP.init lpcfg, "ok")
+  | ["lp.line", y, m, d, t] =>
+    (match nowOf y m d with
+     | some now =>
+       let (lp', r) := lpStep lpcfg gadj colFmts now lp (unhex t)
+       (lp', showRec r ++ showLP lp')
+     | none => (lp, "bad-op"))
+  | _ => (lp, stepU toks)
 
 end C20Driver
 
-def main (args : List String) : IO Unit := Driver.run C20Driver.step () args
+def main (args : List String) : IO Unit := Driver.run C20Driver.step (Logrange.Date.LP.init C20Driver.lpcfg) args
